@@ -296,4 +296,66 @@ theorem C20_D20d_witness :
       (fun s => ((s.stream 4).todo.map (·.required), s.dec.vas.inserted, step s (.deliverBlock 4))) =
       some ([2], 0, .err .badPostbaseIndex) := by decide +kernel
 
+/-! ## Totality
+
+The theorems above speak about histories that were not ended by an error (`run s0 evs = some s`).
+`encode` and `deliverEnc` never end one (`encode_spec`, `step_deliverEnc_ok`: every history), and by
+`C20_blocked_or_exact_partial` neither does `deliverBlock` in a plain history. The remaining event
+of a plain history is `deliverAck`: `Encoder::on_decoder_recv` answers `UnknownStreamId` to a
+Section Acknowledgement for a stream without a tracked block, `InvalidTrackingCount` when the
+reference counts do not match, and subtracts the acknowledged blocked streams from `blocked_count`. -/
+
+/-- **Acknowledgement delivery is total (no capacity change, no cancellation in the history).**
+    In every state reached by a plain history the encoder accepts whatever the decoder has written
+    on the decoder stream, in every batching `k`: `on_decoder_recv` returns neither an error
+    (`UnknownStreamId`, `InvalidTrackingCount`) nor reaches a panic site, all `min k (pending)`
+    instructions handed over are consumed, and the decoder stream itself is untouched.
+    Why: every Section Acknowledgement in flight on a stream belongs to a block that is decoded and
+    not yet released by the encoder (`npop + inflight ≤ |done|`), so `untrack_block` finds its queue
+    entry, whose reference counts are part of `track_map`; an Insert Count Increment only needs
+    `blocked_count = Σ blocked_streams`; no Stream Cancellation is in the queue. -/
+theorem C20_ack_delivery_total (cap bl : Nat) (evs : List Event) (s0 s : Sys)
+    (h0 : Sys.init cap bl = .ok s0) (hr : run s0 evs = some s) (hplain : plainHistory evs = true) (k : Nat) :
+    ∃ s' out, step s (.deliverAck k) = .ok (s', out) ∧
+      out = .ackRecv (min k (s.decQ.length - s.decDel)) ∧
+      s'.decDel = s.decDel + min k (s.decQ.length - s.decDel) ∧ s'.decQ = s.decQ := by
+  obtain ⟨stE, stD, h, p⟩ := run_pinv h0 hplain hr
+  obtain ⟨s', hs, h1, h2⟩ := step_deliverAck_ok h p k
+  exact ⟨s', _, hs, rfl, h1, h2⟩
+
+-- after `demo.take 6` two Insert Count Increments and the Section Acknowledgement of stream 0 are in flight;
+-- delivered in one batch, all three are accepted and the block of stream 0 is released
+example : plainHistory (demo.take 6) = true := by decide
+example : (runFrom 70 100 (demo.take 6)).map (fun s => (s.decQ.drop s.decDel, inflight s 0, (s.stream 0).npop)) =
+    some ([.incr 1, .incr 1, .ack 0], 1, 0) := by decide +kernel
+example : (runFrom 70 100 (demo.take 6)).map (fun s =>
+      step s (.deliverAck 5) |>.toOption.map (fun (r : Sys × Out) => (r.2, (r.1.stream 0).npop, r.1.decDel))) =
+    some (some (.ackRecv 3, 1, 3)) := by decide +kernel
+-- a smaller batch stops in front of the acknowledgement
+example : (runFrom 70 100 (demo.take 6)).map (fun s =>
+      step s (.deliverAck 2) |>.toOption.map (fun (r : Sys × Out) => (r.2, (r.1.stream 0).npop, r.1.decDel))) =
+    some (some (.ackRecv 2, 0, 2)) := by decide +kernel
+-- the error branch exists in the model: an acknowledgement nothing was decoded for (not a reachable state)
+example : (runFrom 70 100 []).map (fun s => step { s with decQ := [.ack 0] } (.deliverAck 1)) =
+    some (.err .unknownStreamId) := by decide +kernel
+
+/-- **Plain histories never end in an error.** From an initial state, every history without
+    capacity change and cancellation runs to its end: no call of `encode`, `on_encoder_recv`,
+    `decode_header` (blocked is an answer, not an error) or `on_decoder_recv` in it returns an error
+    or reaches a panic site. So for plain histories the hypothesis `run s0 evs = some s` of the
+    theorems above only names the final state; it excludes nothing. -/
+theorem C20_plain_history_total (cap bl : Nat) (evs : List Event) (s0 : Sys)
+    (h0 : Sys.init cap bl = .ok s0) (hplain : plainHistory evs = true) :
+    (∃ s, run s0 evs = some s) ∧
+    ∀ s, run s0 evs = some s → ∀ ev, ev.plain = true → ∃ s' out, step s ev = .ok (s', out) := by
+  refine ⟨run_plain_total h0 hplain, ?_⟩
+  intro s hr ev hev
+  obtain ⟨stE, stD, h, p⟩ := run_pinv h0 hplain hr
+  exact step_plain_ok h p hev
+
+example : (runFrom 70 100 demo).isSome = true := by decide +kernel
+-- not so with a cancellation in the history (`C20_D20d_witness`): the next section is an error
+example : runFrom 35 100 [.encode 0 [fa1], .cancel 0, .deliverAck 9, .encode 4 [fa2], .deliverBlock 4] = none := by
+  decide +kernel
+
 end H3.Props.C20
